@@ -25,7 +25,7 @@ COMMONS = (0, 1, 2, 3)
 BOUNDS = {
     "quick": dict(R=2, C=2, R3=1, prec_max=2, two_orders=False),
     # RC: maximum row count per column count (None = 1-D); columns beyond the table are not generated
-    "thorough": dict(R=3, C=3, R3=2, prec_max=3, two_orders=True, R1=4, RC={None: 4, 1: 3, 2: 3, 3: 2}),
+    "thorough": dict(R=3, C=3, R3=2, prec_max=3, two_orders=True, R1=4, RC={None: 4, 1: 3, 2: 3, 3: 2}, absent_update_max_cells=4, value_bound_cells=4),
 }
 
 
@@ -88,6 +88,7 @@ class Ctx:
         self.stats = {}
         self.dense_outcomes = set()
         self.prune = {"C06", "C07", "C15", "C17"}
+        self.value_bound_cells = None
 
     def v(self, prop, site, op, detail):
         self.viol.append((prop, site, op, str(detail)[:1500]))
@@ -235,6 +236,12 @@ def check_result(obj, exp_dense, opd, ctx, opname, chosen_common=False, enqueue=
     if ok:
         k = key_of(obj)
         ctx.dense_outcomes.add((tuple(exp_dense.shape), exp_dense.tobytes()))
+    if enqueue and ctx.value_bound_cells is not None and exp_dense is not None and exp_dense.size > ctx.value_bound_cells \
+            and (set(int(x) for x in exp_dense.flat) - set(VALS)):
+        # bounded search: the transition INTO this state has been checked like any other, but a state with more than
+        # `value_bound_cells` cells is only expanded further while its values stay inside {0,1,2}
+        ctx.stat("targets_outside_value_bound")
+        enqueue = False
     if enqueue:
         blocking = any(v[0] in ctx.prune for v in ctx.viol[n0:])
         if ok:
@@ -339,6 +346,7 @@ def expand(key, cfg, reverse=False, prune=None):
     ctx = Ctx(key)
     if prune is not None:
         ctx.prune = set(prune)
+    ctx.value_bound_cells = cfg.get("value_bound_cells")
     shape, common, _ = key
     d = dense_of(key)
     ndim = len(shape)
@@ -441,6 +449,10 @@ def expand(key, cfg, reverse=False, prune=None):
     # --- update -----------------------------------------------------------------------------------------
     cells = cells_of(shape)
     upd_vals = sorted(set(VALS) | {common})
+    if cfg.get("absent_update_max_cells") is not None and d.size > cfg["absent_update_max_cells"] and common not in VALS:
+        # bound the value alphabet on the larger shapes: assigning an ABSENT common value (3, -1) to a cell is only done on small
+        # arrays, otherwise every array over 5 values becomes reachable (5^6 per shape)
+        upd_vals = sorted(VALS)
     assignments = [((c, v),) for c in cells for v in upd_vals]
     for c1, c2 in itertools.combinations(cells, 2):
         for v1, v2 in ((0, 1), (1, 1), (common, 2), (2, common)):
@@ -791,7 +803,7 @@ def search(tier, nproc=None, prop=None, max_seconds=None, max_states=200000):
     _PRUNE = {prop} if prop else None
     if prop == "C15":
         _PRUNE = {"C15", "C07"}  # equality is only claimed between well-formed indexes
-    _REV = bool(cfg.get("two_orders"))
+    _REV = bool(cfg.get("two_orders")) and prop in (None, "C06")  # insertion-order independence is reported under C06
     t0 = time.time()
     init = initial_keys(cfg)
     parent = {}
@@ -838,7 +850,7 @@ def search(tier, nproc=None, prop=None, max_seconds=None, max_states=200000):
         pool.join()
     return {
         "states": len(parent), "transitions": transitions, "max_depth": depth, "violations": violations, "dense_outcomes": len(dense_outcomes),
-        "parent": parent, "initial": len(set(init)), "capped": capped, "frontier_left": len(frontier), "pruned": pruned, "wall": time.time() - t0, "cfg": cfg,
+        "parent": parent, "initial": len(set(init)), "capped": capped, "frontier_left": len(frontier), "pruned": pruned, "wall": time.time() - t0, "cfg": cfg, "stats": stats,
     }
 
 
